@@ -45,7 +45,7 @@ func checkC17(c *Ctx) error {
 		allowed map[string]bool
 	}{}
 	st, err := c.runTLC(TLCRun{Module: "MC_Scanner", Seed: c.Seed, Timeout: 10 * time.Minute, Workers: 4,
-		Constants: map[string]string{"Inputs": "<- MCInputs", "SilentStop": "= FALSE", "Export": "= TRUE"},
+		Constants: map[string]string{"Inputs": "<- MCInputs", "SilentStop": "= FALSE", "Export": "= TRUE", "Full": "= " + tlaBool(c.Tier == "thorough")},
 		Invs:      []string{"NoSilentTruncation", "ExportCase"}}, func(raw []byte) error {
 		var sc scanCase
 		if err := mustJSON(raw, &sc); err != nil {
@@ -96,7 +96,7 @@ func checkC17(c *Ctx) error {
 	c.Cov["traces_validated_against_impl"] = len(keys)
 	c.Cov["cli_executions"] = cli
 	c.Cov["exhaustive"] = true
-	c.Cov["rule"] = fmt.Sprintf("the Scanner model is explored for every input of 1 or 3 lines with one line of length class below/at/above/double/huge (65534, 65536, 65537, 131072, %d bytes) at every position; each behaviour is replayed for 9 consumers (generate entry, entry produced by definition expansion, include file, exclude file, include with suffix replacement, format, renumber-tests, update-copyright, rules file for update/compare) with and without final newline; exit 0 is accepted only when every line - in particular those after the long one - shows up in the result; non-trivial = the input has a line of 65536 bytes or more", huge)
+	c.Cov["rule"] = fmt.Sprintf("the Scanner model is explored for every input of 1 or 3 lines (thorough: also 3 lines with two long lines and 5 lines) with one line of length class below/at/above/double/huge (65534, 65536, 65537, 131072, %d bytes) at every position; each behaviour is replayed for 9 consumers (generate entry, entry produced by definition expansion, include file, exclude file, include with suffix replacement, format, renumber-tests, update-copyright, rules file for update/compare) with and without final newline; exit 0 is accepted only when every line - in particular those after the long one - shows up in the result; non-trivial = the input has a line of 65536 bytes or more", huge)
 	c.Summary = fmt.Sprintf("states=%d cases=%d cli=%d", st.Distinct, len(keys), cli)
 	return nil
 }
@@ -108,7 +108,7 @@ func scanReplay(c *Ctx, name string, sc scanCase, allowed map[string]bool, huge 
 	}
 	defer os.RemoveAll(root)
 	// concrete lines: entry i is a run of one letter
-	letters := []string{"a", "b", "c"}
+	letters := []string{"a", "b", "c", "d", "e"}
 	texts := make([]string, len(sc.Lines))
 	hasLong := false
 	for i, cl := range sc.Lines {
